@@ -312,7 +312,7 @@ package shaping
 //@   ensures [commits] w.lineUsed == old(w.lineUsed) + ite(old(w.bestInLine), len(old(w.best)), 0)
 //@   modifies w.lineUsed
 //
-//@ func runMapper.mapRun C13 C02
+//@ func runMapper.mapRun C13 C02 C03
 //@   mode bv
 //@   ensures [valid] r.valid && r.runIdx == runIdx
 //@   ensures [reuses-only-same-run] implies(old(r.valid) && old(r.runIdx) == runIdx, sameslice(r.mapping, old(r.mapping)))
@@ -322,7 +322,7 @@ package shaping
 //@ trusted newBreaker
 //@   ensures [fresh] fresh(result) && result.totalRunes == len(text) && !result.isUnusedWord && !result.isUnusedGrapheme
 //@   modifies *seg; all(rune); all(segmenter.breakAttr)
-//@ func LineWrapper.Prepare C13
+//@ func LineWrapper.Prepare C13 C02 C03
 //@   mode bv
 //@   ensures [mapping-invalidated] !l.mapper.valid
 //@   ensures [position] l.lineStartRune == 0 && l.more
@@ -374,9 +374,13 @@ package shaping
 // wrapNextLine, break policies (property C03): breaking inside a UAX #14 segment (the grapheme loop) is attempted only
 // if the policy allows it: never with Never; with WhenNecessary only when the segment cannot fit on a line by itself
 // (cannotFit), when the line is being truncated, or to fill the last permitted line before truncation.
-//@ func LineWrapper.wrapNextLine C03
+//@ func LineWrapper.wrapNextLine C03 C04
 //@   mode bv
 //@   requires l.breaker != nil
+//   C04 ("truncation is honoured"): a candidate that cannot fit is committed as the line only when the line is not the
+//   truncated one (the truncated line must keep room for the truncator), in the word loop and in the grapheme loop.
+//@   assert_at call markCandidateBest#1 : [cannot-fit-not-committed-when-truncating] !config.truncating
+//@   assert_at call markCandidateBest#3 : [cannot-fit-not-committed-when-truncating] !config.truncating
 //@   assert_at call nextGraphemeBreak#1 : [grapheme-breaking-justified] l.config.BreakPolicy != Never && (result == truncated || result == newLineBeforeBreak || result == cannotFit) &&
 //@     | implies(result == newLineBeforeBreak && l.config.BreakPolicy == WhenNecessary, config.truncating)
 //@   loop 2 invariant [grapheme-breaking-justified] l.config.BreakPolicy != Never && (result == truncated || result == newLineBeforeBreak || result == cannotFit) &&
@@ -420,6 +424,8 @@ package shaping
 //@   ensures [truncation] implies(result0 == endLine || result0 == truncated, config.truncating && lineWidth(l, result1) <= config.maxWidth && lineWidth(l, result1) > config.truncatedMaxWidth)
 //@   ensures [end-line-only-at-text-end] implies(result0 == endLine, result1.Runes.Count+result1.Runes.Offset == l.breaker.totalRunes && !l.config.TextContinues)
 //@   ensures [truncated-otherwise] implies(result0 == truncated, !(result1.Runes.Count+result1.Runes.Offset == l.breaker.totalRunes && !l.config.TextContinues))
+//   C03: no candidate, mandatory or not, is cut when it falls inside a glyph cluster of the run
+//@   assert_at call cutRun#1 : [only-valid-options-cut] option.isValid(l.mapper.mapping, run)
 //@   modifies l.scratch.alt; l.scratch.altAdvance; l.mapper; all(glyphIndex); all(Output)
 //
 // ---------------------------------------------------------------------------------------------
@@ -532,7 +538,7 @@ package shaping
 //@ trusted golang.org/x/text/unicode/bidi.Paragraph.SetString
 //@   requires [default-direction-given] len(opts) >= 1
 //@   modifies unspecified
-//@ func Segmenter.splitByBidi C07
+//@ func Segmenter.splitByBidi C07 C08
 //@   mode int
 //@   requires [run-in-text] 0 <= text.RunStart && text.RunEnd <= len(text.Text)
 //@   ensures [empty-run-kept] implies(text.RunStart >= text.RunEnd, len(seg.output) == old(len(seg.output))+1 && seg.output[len(seg.output)-1].RunStart == text.RunStart && seg.output[len(seg.output)-1].RunEnd == text.RunEnd)
@@ -558,6 +564,7 @@ package shaping
 //@   ensures [function-of-arguments] result == orientOf(sv, r)
 //@   modifies nothing
 //@ trusted std:unicodedata.LookupVerticalOrientation
+//@   ensures [for-this-script] result.script == s
 //@   modifies nothing
 //@ func Segmenter.splitByVertOrientation C07
 //@   mode int
@@ -580,6 +587,7 @@ package shaping
 //@   loop 2 invariant [own-region] rid(seg.output) != ridof(currentInput) && rid(seg.input) != ridof(currentInput)
 //@   loop 2 invariant [this-input] 0 <= rangeindex && rangeindex < len(seg.input) && input.RunStart == seg.input[rangeindex].RunStart && input.RunEnd == seg.input[rangeindex].RunEnd
 //@   loop 2 invariant [grows] len(seg.output) >= old(len(seg.output)) + rangeindex
+//@   loop 2 invariant [table-of-this-script] vo.script == input.Script
 //@   loop 2 invariant [uniform-so-far] forall(p, currentInput.RunStart, i, orientOf(vo, currentInput.Text[p]) == currentInput.Direction.IsSideways())
 //@   loop 2 invariant [chain] implies(inputsContiguous(seg.input), forall(m, old(len(seg.output)), len(seg.output)-1, seg.output[m].RunEnd == seg.output[m+1].RunStart))
 //@   loop 2 invariant [tail] implies(inputsContiguous(seg.input), (len(seg.output) == old(len(seg.output)) && rangeindex == 0 && currentInput.RunStart == input.RunStart) || (len(seg.output) > old(len(seg.output)) && seg.output[len(seg.output)-1].RunEnd == currentInput.RunStart && seg.output[old(len(seg.output))].RunStart == seg.input[0].RunStart))
